@@ -961,7 +961,11 @@ func (p *Program) readFields(fn *ssa.Function, param string) (map[string]bool, s
 // derives from a local allocation (of fn or of a callee), never from a global, from one of fn's own
 // pointer parameters or from a pointer loaded from memory.  Returns a description of the first
 // offending store otherwise.
-func (p *Program) writesOnlyLocals(fn *ssa.Function) string {
+func (p *Program) writesOnlyLocals(fn *ssa.Function, via ...string) string {
+	allowed := map[string]bool{}
+	for _, v := range via {
+		allowed[v] = true
+	}
 	type ctxKey struct {
 		fn  *ssa.Function
 		cls string
@@ -1044,6 +1048,9 @@ func (p *Program) writesOnlyLocals(fn *ssa.Function) string {
 					}
 					if callee.Pkg != nil && (callee.Pkg.Pkg.Path() == "math" || callee.Pkg.Pkg.Path() == "math/bits") {
 						continue // pure numeric library functions
+					}
+					if allowed[shortFuncName(callee)] {
+						continue // the designated writer (its own contract says what it writes)
 					}
 					if len(callee.Blocks) == 0 {
 						problem = "call to " + callee.String() + " (no body) in " + f.String()
